@@ -51,6 +51,10 @@ Definition k_value : bytes := Eval vm_compute in str "value".
 Definition k_verificationVector : bytes := Eval vm_compute in str "verificationVector".
 Definition k_verification_vector : bytes := Eval vm_compute in str "verification_vector".
 Definition k_u : bytes := Eval vm_compute in str "u".
+Definition k_m : bytes := Eval vm_compute in str "m".
+Definition k_sharingID : bytes := Eval vm_compute in str "sharingID".
+Definition k_secret : bytes := Eval vm_compute in str "secret".
+Definition k_blinding : bytes := Eval vm_compute in str "blinding".
 Definition k_w : bytes := Eval vm_compute in str "w".
 
 (* ---------------------------------------------------------------- schemas *)
@@ -349,6 +353,20 @@ Definition dklspartial_rules (c : curve) (x : item) : list rule :=
   point_rules c (fld k_r x) ++ scalar_rules c (fld k_u x) ++ scalar_rules c (fld k_w x) ++
   [ (34, negb (scalar_is_zero (fld k_u x)) && negb (scalar_is_zero (fld k_w x))) ].
 
+(* pedersen.Share.UnmarshalCBOR {sharingID, secret: [{m: scalar}], blinding: [{r: scalar}]} and
+   pedersen.NewLiftedShare {sharingID, value: [{v: point}]} *)
+Definition pedshare_rules (c : curve) (x : item) : list rule :=
+  let s := arr_of (fld k_secret x) in
+  let b := arr_of (fld k_blinding x) in
+  [ (22, negb (nat_of (fld k_sharingID x) =? 0));
+    (35, negb (len s =? 0) && negb (len b =? 0));
+    (36, len s =? len b) ] ++
+  flat_map (fun e => scalar_rules c (fld k_m e)) s ++ flat_map (fun e => scalar_rules c (fld k_r e)) b.
+Definition pedlifted_rules (c : curve) (x : item) : list rule :=
+  let v := arr_of (fld k_value x) in
+  [ (22, negb (nat_of (fld k_sharingID x) =? 0)); (23, negb (len v =? 0)) ] ++
+  flat_map (fun e => point_rules c (fld k_v e)) v.
+
 (* num.NatPlus: non-zero *)
 Definition natplus_rules (x : item) : list rule :=
   [ (32, existsb (fun b => negb (b =? 0)) (bytes_of (fld k_natBytes (fld k_natPlus x)))) ].
@@ -359,7 +377,7 @@ Inductive ty : Type :=
 | TThreshold | TUnanimity | TCnf | THierarchical | TBoolexpr
 | TMsp (c : curve) | TKwShare (c : curve) | TLifted (c : curve) | TFeldmanVV (c : curve)
 | TBasePublic (c : curve) | TBaseShard (c : curve) (sharematch : bool)
-| TEcdsaSig (c : curve) | TDklsPartial (c : curve)
+| TEcdsaSig (c : curve) | TDklsPartial (c : curve) | TPedShare (c : curve) | TPedLifted (c : curve)
 | TMatrix (c : curve) | TSqMatrix (c : curve) | TMvMatrix (c : curve)
 | TNat | TInt | TNatPlus | TScalar (c : curve) | TPoint (c : curve)
 | TGeneric.
@@ -398,6 +416,11 @@ Definition schema_of (t : ty) : schema :=
   | TBaseShard _ _ => SStruct [ (k_share, (false, s_share s_scalar)); (k_publicMaterial, (false, s_basepublic)) ]
   | TEcdsaSig _ => SStruct [ (k_r, (false, s_scalar)); (k_s, (false, s_scalar)); (k_v, (false, SNullOr SInt)) ]
   | TDklsPartial _ => SStruct [ (k_r, (false, s_point)); (k_u, (false, s_scalar)); (k_w, (false, s_scalar)) ]
+  | TPedShare _ => SStruct [ (k_sharingID, (false, SId));
+                             (k_secret, (false, SList (SStruct [ (k_m, (false, s_scalar)) ])));
+                             (k_blinding, (false, SList (SStruct [ (k_r, (false, s_scalar)) ]))) ]
+  | TPedLifted _ => SStruct [ (k_sharingID, (false, SId));
+                              (k_value, (false, SList (SStruct [ (k_v, (false, s_point)) ]))) ]
   | TMatrix _ => s_matrix s_scalar
   | TSqMatrix _ => s_sqmatrix s_scalar
   | TMvMatrix _ => s_matrix s_point
@@ -424,6 +447,8 @@ Definition rules_of (t : ty) (x : item) : list rule :=
   | TBaseShard c m => baseshard_rules c m x
   | TEcdsaSig c => ecdsa_rules c x
   | TDklsPartial c => dklspartial_rules c x
+  | TPedShare c => pedshare_rules c x
+  | TPedLifted c => pedlifted_rules c x
   | TMatrix c => matrix_rules (scalar_rules c) x
   | TSqMatrix c => sqmatrix_rules (scalar_rules c) x
   | TMvMatrix c => matrix_rules (point_rules c) x
